@@ -5,5 +5,6 @@ func init() {
 		"schedules are sampled (generated programs, perturbations and exporter latencies, each program run twice under the race detector), not enumerated",
 		"visibility is asserted only for ForceFlush/Shutdown calls that returned nil and do not overlap a Shutdown call",
 		"the processor's dropped counter is read from its 'exporting spans … total_dropped' debug log line",
+		"through a TracerProvider with several processors only ForceFlush calls and the first Shutdown call that returned nil are asserted, for the batch processors registered at that moment; nothing is asserted about the value of a returned error",
 	))
 }
